@@ -9,6 +9,12 @@ package main
 //   mismatch  a caller got 200 with a body that is not the echo of what it sent (C01/C02)
 //   stranded  a caller had not returned 20 s after both ends of the connection were closed (C12)
 //   srvhang   ServeConn had not returned 20 s after both ends were closed (C17)
+//   resent    (pool rounds) one request reached a handler twice: the client sent again what a server had processed (C11)
+//   retryproc (pool rounds) RoundTrip said "retry" for a request a handler had been given (C11)
+//
+// Pool rounds (one round in three) go through the whole client: a Client made by http2.VerifNewClient, whose
+// Dialer gets in-memory transports instead of TCP+TLS, so pickConn, createConn/Dial/Handshake, roundTripOnce,
+// RoundTrip's retry loop and onConnectionDropped all run as they are; every dial gets its own ServeConn.
 //
 // Output: one line "freerun rounds=.. requests=.. ok=.. err=.. canceled=.. mismatch=.. stranded=.. srvhang=.."
 // followed by one line per offending round ("BAD round=<i> seed=<s> <what>").
@@ -145,6 +151,7 @@ func pattern(seed uint64, n int) []byte {
 
 type freeStats struct {
 	requests, ok, errs, canceled, mismatch, stranded, srvhang, stalled, wrongErr int64
+	resent, retryProc, dials, poolRounds                                         int64
 	bad                                                                          []string
 	mu                                                                           sync.Mutex
 	classes                                                                      map[string]int
@@ -171,6 +178,10 @@ func (st *freeStats) note(s string) {
 }
 
 func freeRound(seed uint64, round int, st *freeStats) {
+	if round%3 == 2 {
+		poolRound(seed, round, st)
+		return
+	}
 	g := &rng{s: seed*0x9e3779b97f4a7c15 + uint64(round)*0xbf58476d1ce4e5b9 + 1}
 	maxStreams := []int{1, 3, 8, 100, 100, 1000}[g.intn(6)]
 	handler := func(ctx *fasthttp.RequestCtx) {
@@ -359,6 +370,174 @@ func freeRound(seed uint64, round int, st *freeStats) {
 	}
 }
 
+// poolRound: several callers go through Client.RoundTrip; the client dials as many connections as it sees fit.
+func poolRound(seed uint64, round int, st *freeStats) {
+	atomic.AddInt64(&st.poolRounds, 1)
+	g := &rng{s: seed*0x9e3779b97f4a7c15 + uint64(round)*0xbf58476d1ce4e5b9 + 7}
+	maxStreams := []int{1, 1, 2, 3, 8, 100}[g.intn(6)]
+	var dmu sync.Mutex
+	dispatched := map[string]int{}
+	handler := func(ctx *fasthttp.RequestCtx) {
+		tag := string(ctx.Request.Header.Peek("x-tag"))
+		dmu.Lock()
+		dispatched[tag]++
+		n := dispatched[tag]
+		dmu.Unlock()
+		if n == 2 {
+			atomic.AddInt64(&st.resent, 1)
+			st.note(fmt.Sprintf("BAD round=%d seed=%d request %s reached a handler twice", round, seed, tag))
+		}
+		body := append([]byte(nil), ctx.Request.Body()...)
+		mode := ctx.Request.Header.Peek("x-mode")
+		if len(mode) > 0 && mode[0] == 'd' {
+			time.Sleep(time.Duration(int(mode[1]-'0')) * 200 * time.Microsecond)
+		}
+		ctx.Response.Header.Set("x-echo", tag)
+		ctx.Response.SetBody(body)
+	}
+	ms := func(choices ...int) time.Duration {
+		return time.Duration(choices[g.intn(len(choices))]) * time.Millisecond
+	}
+	// an idle timeout makes the server say GOAWAY between requests: the client has to move on to another connection
+	readTimeout, idleTimeout := ms(0, 0, 0, 10), ms(0, 0, 1, 3, 20)
+	fs := &fasthttp.Server{Handler: handler, NoDefaultServerHeader: true, NoDefaultDate: true, Logger: quietLogger{},
+		ReadTimeout: readTimeout, IdleTimeout: idleTimeout}
+	srv := http2.ConfigureServer(fs, http2.ServerConfig{PingInterval: ms(-1, -1, 5), MaxConcurrentStreams: maxStreams})
+	var cmu sync.Mutex
+	var srvEnds []net.Conn
+	var srvRets []chan struct{}
+	dialFail := g.intn(8) == 0
+	dial := func() (net.Conn, error) {
+		atomic.AddInt64(&st.dials, 1)
+		cmu.Lock()
+		defer cmu.Unlock()
+		if dialFail && len(srvEnds) >= 2 {
+			return nil, io.ErrClosedPipe
+		}
+		c1, c2 := newBufPipe()
+		ret := make(chan struct{})
+		srvEnds = append(srvEnds, c1)
+		srvRets = append(srvRets, ret)
+		go func() { _ = srv.ServeConn(c1); close(ret) }()
+		return c2, nil
+	}
+	opts := http2.ClientOpts{}
+	if g.intn(3) == 0 {
+		opts.MaxResponseTime = time.Duration(200+g.intn(20000)) * time.Microsecond
+	}
+	cl := http2.VerifNewClient(dial, opts, []time.Duration{time.Hour, 5 * time.Millisecond}[g.intn(2)])
+	defer http2.VerifForgetClient(cl)
+	workers := 2 + g.intn(8)
+	perWorker := 2 + g.intn(6)
+	disrupt := g.intn(6) // 0: Client.Close mid-run, 1: cut one server end mid-run, 2: cut every server end, else none
+	var wg sync.WaitGroup
+	var inFlight int64
+	for w := 0; w < workers; w++ {
+		wseed := g.u64()
+		wg.Add(1)
+		go func(w int, wseed uint64) {
+			defer wg.Done()
+			wg2 := &rng{s: wseed | 1}
+			for k := 0; k < perWorker; k++ {
+				atomic.AddInt64(&st.requests, 1)
+				size := []int{0, 1, 100, 5000, 16385, 40000}[wg2.intn(6)]
+				body := pattern(wseed+uint64(k), size)
+				req := fasthttp.AcquireRequest()
+				res := fasthttp.AcquireResponse()
+				req.Header.SetMethod("POST")
+				req.SetRequestURI("https://free.run/echo")
+				tag := fmt.Sprintf("p%d-%d-%d", round, w, k)
+				req.Header.Set("x-tag", tag)
+				if wg2.intn(3) == 0 {
+					req.Header.Set("x-mode", fmt.Sprintf("d%d", wg2.intn(10)))
+				}
+				if size > 0 && wg2.intn(3) == 0 {
+					req.SetBodyStream(&slowReader{data: append([]byte(nil), body...), chunk: 500 + wg2.intn(20000)}, size)
+				} else {
+					req.SetBody(body)
+				}
+				atomic.AddInt64(&inFlight, 1)
+				retry, err := cl.RoundTrip(nil, req, res)
+				atomic.AddInt64(&inFlight, -1)
+				if retry {
+					dmu.Lock()
+					n := dispatched[tag]
+					dmu.Unlock()
+					if n > 0 {
+						atomic.AddInt64(&st.retryProc, 1)
+						st.note(fmt.Sprintf("BAD round=%d seed=%d RoundTrip reported request %s retryable (%v) after a handler had been given it", round, seed, tag, err))
+					}
+				}
+				switch {
+				case err == nil:
+					if res.StatusCode() == 200 && (!bytes.Equal(res.Body(), body) || string(res.Header.Peek("x-echo")) != tag) {
+						atomic.AddInt64(&st.mismatch, 1)
+						st.note(fmt.Sprintf("BAD round=%d seed=%d mismatch tag=%s sent=%d got=%d echo=%q", round, seed, tag, len(body), len(res.Body()), res.Header.Peek("x-echo")))
+					}
+					atomic.AddInt64(&st.ok, 1)
+				case err == http2.ErrRequestCanceled:
+					atomic.AddInt64(&st.canceled, 1)
+				default:
+					atomic.AddInt64(&st.errs, 1)
+					if es := err.Error(); strings.Contains(es, "runtime error") || strings.Contains(es, "reading the request body") {
+						atomic.AddInt64(&st.wrongErr, 1)
+						st.note(fmt.Sprintf("BAD round=%d seed=%d caller %s got %q", round, seed, tag, es))
+					}
+				}
+				fasthttp.ReleaseRequest(req)
+				fasthttp.ReleaseResponse(res)
+			}
+		}(w, wseed)
+	}
+	done := make(chan struct{})
+	go func() { wg.Wait(); close(done) }()
+	cut := func(all bool) {
+		cmu.Lock()
+		ends := append([]net.Conn(nil), srvEnds...)
+		cmu.Unlock()
+		for i, c := range ends {
+			if all || i == 0 {
+				_ = c.Close()
+			}
+		}
+	}
+	switch disrupt {
+	case 0:
+		time.Sleep(time.Duration(g.intn(3000)) * time.Microsecond)
+		_ = cl.Close()
+	case 1, 2:
+		time.Sleep(time.Duration(g.intn(3000)) * time.Microsecond)
+		cut(disrupt == 2)
+	}
+	select {
+	case <-done:
+	case <-time.After(stallAfter):
+		atomic.AddInt64(&st.stalled, 1)
+		st.note(fmt.Sprintf("STALL round=%d seed=%d pool callers-waiting=%d maxStreams=%d workers=%d disrupt=%d", round, seed, atomic.LoadInt64(&inFlight), maxStreams, workers, disrupt))
+	}
+	_ = cl.Close()
+	cut(true)
+	select {
+	case <-done:
+	case <-time.After(20 * time.Second):
+		atomic.AddInt64(&st.stranded, 1)
+		st.note(fmt.Sprintf("BAD round=%d seed=%d stranded callers=%d (pool)", round, seed, atomic.LoadInt64(&inFlight)))
+	}
+	cmu.Lock()
+	rets := append([]chan struct{}(nil), srvRets...)
+	cmu.Unlock()
+	deadline := time.After(20 * time.Second)
+	for _, r := range rets {
+		select {
+		case <-r:
+		case <-deadline:
+			atomic.AddInt64(&st.srvhang, 1)
+			st.note(fmt.Sprintf("BAD round=%d seed=%d ServeConn did not return (pool)", round, seed))
+			return
+		}
+	}
+}
+
 func runFreeRun(seed uint64, rounds int) {
 	http2.VerifSetQuiet(true)
 	st := &freeStats{}
@@ -376,8 +555,8 @@ func runFreeRun(seed uint64, rounds int) {
 		}(i)
 	}
 	wg.Wait()
-	fmt.Printf("freerun rounds=%d requests=%d ok=%d err=%d canceled=%d mismatch=%d stranded=%d srvhang=%d stalled=%d wrongerr=%d\n",
-		rounds, st.requests, st.ok, st.errs, st.canceled, st.mismatch, st.stranded, st.srvhang, st.stalled, st.wrongErr)
+	fmt.Printf("freerun rounds=%d requests=%d ok=%d err=%d canceled=%d mismatch=%d stranded=%d srvhang=%d stalled=%d wrongerr=%d resent=%d retryproc=%d poolrounds=%d dials=%d\n",
+		rounds, st.requests, st.ok, st.errs, st.canceled, st.mismatch, st.stranded, st.srvhang, st.stalled, st.wrongErr, st.resent, st.retryProc, st.poolRounds, st.dials)
 	if os.Getenv("H2V_STACKS") != "" {
 		fmt.Fprintln(os.Stderr, st.classes)
 	}
